@@ -27,7 +27,7 @@ def run(tier, replay=None):
     if replay:
         return replay_one(ck, rp, replay, env)
     # group 1: scanner totality (byte level)
-    res = run_symgo(mod, hp, "main", "^Harness_C16_(scan|nextToken|tkzNext|ParseSInterP|reinterpretEscape|PosToFilePosInfo)", steps=200000, env=env,
+    res = run_symgo(mod, hp, "main", "^Harness_C16_(scan|nextToken|tkzNext|ParseSInterP|reinterpretEscape|PosToFilePosInfo|SpaceRuns)", steps=200000, env=env,
                     maxpaths=3000000, timeout=300 if tier == "quick" else 3000, extra=["-bound-is-violation"])
     ck.add_run(res)
     ck.handle_violations(res, rp, env=env, timeout=20, per_key=2, accept=accept)
